@@ -9,6 +9,7 @@ import (
 	"bytes"
 	"crypto/sha256"
 	"encoding/hex"
+	"encoding/json"
 	"errors"
 	"fmt"
 	"io"
@@ -102,7 +103,7 @@ func packageWith(yaml string, f string, w io.Writer) error {
 	return pk.Package(nfpm.WithDefaults(info), w)
 }
 
-func famFault(tr *Trace, scratch string, seed int64, tier string, workers int, repo, nfpmBin string) M {
+func famFault(tr *Trace, scratch string, seed int64, tier string, workers int, repo, nfpmBin, behaviours string) M {
 	os.Unsetenv("SOURCE_DATE_EPOCH")
 	id := 0
 	nfaults, nsrc, ninv, ncli := 0, 0, 0, 0
@@ -367,7 +368,7 @@ func famFault(tr *Trace, scratch string, seed int64, tier string, workers int, r
 
 	// ---- the command-line tool
 	if nfpmBin != "" {
-		ncli = famCli(tr, &id, scratch, nfpmBin)
+		ncli = famCli(tr, &id, scratch, nfpmBin, behaviours)
 	}
 	return M{"cases": id, "sink_faults": nfaults, "source_faults": nsrc, "invalid_settings": ninv, "cli_runs": ncli}
 }
@@ -393,14 +394,29 @@ func listFiles(dir string) []any {
 	return out
 }
 
-func famCli(tr *Trace, id *int, scratch, bin string) int {
+// cliBehaviour is one terminal state exported by TLC from spec/Cli.tla (MC_Cli_export.cfg).
+type cliBehaviour struct {
+	Argv struct {
+		Fmt   string `json:"fmt"`
+		Kind  string `json:"kind"`
+		Withp bool   `json:"withp"`
+		Fault string `json:"fault"`
+	} `json:"argv"`
+	Exit    int    `json:"exit"`
+	Where   string `json:"where"`
+	Fs      string `json:"fs"`
+	Created bool   `json:"created"`
+	Cause   bool   `json:"cause"`
+}
+
+func famCli(tr *Trace, id *int, scratch, bin, behaviours string) int {
 	n := 0
 	root := filepath.Join(scratch, "cli-src")
 	c := baseCfg("clipkg")
 	nodes := append(smallTree(), addScripts(newRng(7), c, []string{"postinstall"})...)
 	c.Entries = []Entry{{Type: "file", Src: "src/bin", Dst: "/usr/bin/tool"}, {Type: "config", Src: "src/app.conf", Dst: "/etc/clipkg/app.conf"}}
 	exts := map[string]string{"deb": ".deb", "rpm": ".rpm", "apk": ".apk", "archlinux": ".pkg.tar.zst", "ipk": ".ipk"}
-	run := func(f, targetKind, fault string, withP bool, twice bool) {
+	run := func(f, targetKind, fault string, withP bool, tlc *cliBehaviour) {
 		work := filepath.Join(scratch, fmt.Sprintf("cli-%d", *id+1))
 		outDir := filepath.Join(work, "out")
 		cwd := filepath.Join(work, "cwd")
@@ -504,33 +520,86 @@ func famCli(tr *Trace, id *int, scratch, bin string) int {
 				}
 			}
 		}
+		// the abstract state of Cli.tla, projected from what is on disk
+		outF, cwdF := listFiles(outDir), listFiles(cwd)
+		obsWhere, obsFs := "", "absent"
+		locate := func(dir string, names []any, whereConv string) {
+			for _, nm := range names {
+				name := nm.(string)
+				if strings.HasSuffix(name, "/") {
+					continue
+				}
+				p := filepath.Join(dir, name)
+				if name == refName {
+					obsWhere = whereConv
+				} else {
+					obsWhere = "target"
+				}
+				if st, err := os.Lstat(p); err == nil && st.Mode()&os.ModeSymlink != 0 {
+					obsFs = "old" // the fixture that was at the -t name before the run (symlink to /dev/full) is still there
+					continue
+				}
+				if b, err := os.ReadFile(p); err == nil {
+					switch {
+					case refErr == nil && bytes.Equal(b, ref.Bytes()):
+						obsFs = "complete"
+					case bytes.HasPrefix(b, []byte("OLD-CONTENT-")) && len(b) == 12*400000:
+						obsFs = "old"
+					default:
+						obsFs = "partial"
+					}
+				}
+			}
+		}
+		locate(outDir, outF, "dir/conventional")
+		locate(cwd, cwdF, "cwd/conventional")
 		*id++
 		n++
 		rel := func(p string) string { return strings.ReplaceAll(p, work, "$WORK") }
+		tl := M{"present": false, "exit": 0, "where": "", "fs": "", "created": false, "cause": false}
+		if tlc != nil {
+			tl = M{"present": true, "exit": tlc.Exit, "where": tlc.Where, "fs": tlc.Fs, "created": tlc.Created, "cause": tlc.Cause}
+		}
+		exitClass := 0
+		if exit != 0 {
+			exitClass = 1
+		}
 		tr.Emit(*id, []M{{"ev": "case", "id": *id, "fam": "cli"},
 			{"ev": "cli", "fmt": f, "target_kind": targetKind, "fault": fault, "with_p": withP, "exit": exit,
 				"created_line": rel(created), "expected_path": rel(expPath), "file_at_expected": atExp, "bytes_equal_library_build": same,
 				"out_files": listFiles(outDir), "cwd_files": listFiles(cwd), "output": safeStr(rel(strings.ReplaceAll(outS, root, "$ROOT"))),
 				"mentions_cause": strings.Contains(outS, "postinstall") && fault == "missing_script" || strings.Contains(outS, "app.conf") && fault == "missing_source" ||
 					strings.Contains(outS, "unknown_key") && fault == "bad_config" || fault == "devfull" && (strings.Contains(outS, "no space") || strings.Contains(outS, "write")),
-				"conventional_name": refName},
+				"mentions_packager": strings.Contains(outS, "packager"),
+				"conventional_name": refName, "tlc": tl, "obs_exit": exitClass, "obs_where": obsWhere, "obs_fs": obsFs},
 			{"ev": "endcase"}})
 		os.RemoveAll(work)
 	}
+	if behaviours != "" {
+		// spec -> code: every terminal behaviour TLC exported is replayed on the real binary
+		b, err := os.ReadFile(behaviours)
+		must(err)
+		for _, ln := range strings.Split(strings.TrimSpace(string(b)), "\n") {
+			var bh cliBehaviour
+			must(json.Unmarshal([]byte(ln), &bh))
+			run(bh.Argv.Fmt, bh.Argv.Kind, bh.Argv.Fault, bh.Argv.Withp, &bh)
+		}
+		return n
+	}
 	for _, f := range allFormats {
 		for _, tk := range []string{"file", "dir", "dir_slash", "empty", "symlink_dir", "existing_larger"} {
-			run(f, tk, "none", true, false)
+			run(f, tk, "none", true, nil)
 		}
-		run(f, "file", "none", false, false) // packager inferred from the extension
-		run(f, "file_foreign_ext", "none", true, false)
-		run(f, "file_foreign_ext", "none", false, false) // no packager, foreign extension: must fail, nothing written
-		run(f, "dir", "none", false, false)              // no packager, directory: must fail
+		run(f, "file", "none", false, nil) // packager inferred from the extension
+		run(f, "file_foreign_ext", "none", true, nil)
+		run(f, "file_foreign_ext", "none", false, nil) // no packager, foreign extension: must fail, nothing written
+		run(f, "dir", "none", false, nil)              // no packager, directory: must fail
 		for _, fault := range []string{"missing_script", "missing_source", "bad_config"} {
 			for _, tk := range []string{"file", "dir", "empty"} {
-				run(f, tk, fault, true, false)
+				run(f, tk, fault, true, nil)
 			}
 		}
-		run(f, "devfull", "devfull", true, false)
+		run(f, "devfull", "devfull", true, nil)
 	}
 	return n
 }
